@@ -154,3 +154,41 @@ func treeShapes(t *testing.T, rep *ev.Report, shard, of int) {
 	}
 	rep.Info["tree_shapes"] = fmt.Sprintf("%d dependency forests over streams 1,3,5,7 x 16 weight assignments x 15 ready sets x {HEADERS, HEADERS+DATA}", len(parents))
 }
+
+// longDrains: counters of the priority scheduler that grow with every Pop. With ThrottleOutOfOrderWrites the budget
+// for streams below an open ancestor grows by 1024 per consecutive Pop and is an int32: 2^21 consecutive one-byte Pops
+// from such a stream cross its width. One DATA frame of 2^21+16 bytes on a stream that depends on an open stream is
+// drained with a maximum frame size of 1: every byte must come out.
+func longDrains(t *testing.T, rep *ev.Report) {
+	for _, dep := range []uint32{0, 1} {
+		j := &job{name: "priority[throttle]/long-drain", sched: "priority", cfgName: "throttle",
+			cfg:      &http2.PriorityWriteSchedulerConfig{MaxClosedNodesInTree: 10, MaxIdleNodesInTree: 10, ThrottleOutOfOrderWrites: true},
+			maxFrame: 1, initSW: 100, initCW: 1000}
+		s := newSys(j)
+		var names []string
+		ops := []op{mkOpen(1, 0), mkOpen(3, 0), mkAdj(3, dep, false, 15), mkH(3), mkD(3, 1<<21+16, true)}
+		var vi *violation
+		for _, o := range ops {
+			names = append(names, o.name)
+			if _, _, vi = s.step(&o); vi != nil {
+				break
+			}
+		}
+		pops := 0
+		for round := 0; vi == nil && round < 4 && (round == 0 || s.ref.QueuedWork() > 0); round++ {
+			// (drain opens every window to 2^20 bytes: the frame needs three rounds)
+			var n int
+			n, vi = s.drain()
+			pops += n
+		}
+		if vi == nil && s.ref.QueuedWork() > 0 {
+			vi = &violation{kind: "lost-frame", msg: fmt.Sprintf("after four drains with all windows open %v are still queued", s.ref.QueuedFrames())}
+		}
+		rep.Add("long_drain_pops", int64(pops))
+		rep.Add("evaluations", 1)
+		if vi != nil {
+			rep.Violate(map[string]any{"kind": vi.kind, "scheduler": "priority", "config": "throttle", "part": "long-drain"}, map[string]any{"operations": names},
+				"priority scheduler (throttle), maximum frame size 1, after %v and %d Pops: %s", names, pops, vi.msg)
+		}
+	}
+}
